@@ -29,6 +29,9 @@ LISTS = {
     'FL1': 'u32, float',                       # floating point: == is not bitwise (+0.0 == -0.0)
     'FL2': f'{F}<double>, u64',
     'FL3': f'usize, {V}<float>',
+    'FL4': f'u32, {A}<usize,8>, {V}<float>',     # element-wise comparison + elements that end off the storage alignment
+    'G3': f'u32, {A}<usize,8>, {V}<Cm>',
+    'S16': f'{F}<u16>',                          # one multi-byte field: byte order != numeric order
     'R1': f'u32, {F}<u32>',                     # one trivially swappable/assignable run of 4 + 4n bytes, n up to 15 (C11)
 }
 TWO_SPAN = {'F2', 'V3', 'M1'}
@@ -289,7 +292,12 @@ def pool_layout(prop, tier, seed, reserved=False):
             for (ss, as_) in [(2, 1), (1, 1), (4, 2), (12, 1)]:
                 tails.append(((('P', sp, ap), (ks, ss, as_)), 'usize'))
     random.Random(4).shuffle(tails)
-    for combo, cnt in (tails[:8] if tier == 'quick' else tails):
+    # [varying span of small objects][plain AlignAs 8/16][span of 16-byte objects, alignment 1, LAST]: whether the next element start is
+    # re-aligned at run time is decided from the compile-time trailing alignment of that last span
+    for (sa, aa) in ([(4, 1), (2, 1)] if tier == 'quick' else [(4, 1), (2, 1), (1, 1), (4, 2)]):
+        for (sp, ap) in [(4, 8), (4, 16)]:
+            tails.append(((('V', sa, aa), ('P', sp, ap), ('F', 16, 1)), 'usize'))
+    for combo, cnt in (tails[:8] + [t for t in tails if len(t[0]) == 3] if tier == 'quick' else tails):
         obs.append(layout_ob(prop, family_name(combo, cnt), family_list(combo, cnt), nelem=(3 if combo[1][0] == 'F' else 2), reserved=int(reserved)))
     for combo, cnt in (shapes[:14] if tier == 'quick' else shapes):
         obs.append(layout_ob(prop, family_name(combo, cnt), family_list(combo, cnt), nelem=2, reserved=int(reserved)))
@@ -468,7 +476,7 @@ def c12(tier, seed):
 def cmp_ob(prop, lid, part, domain=0, smax=None, kv=2):
     d = [f'-DLIST={LISTS[lid]}', f'-DPART={part}', f'-DDOMAIN={domain}', f'-DKV={kv}']
     if smax is not None: d.append(f'-DSMAX={smax}')
-    return dict(prop=prop, name=f"cmp/{lid}/part{part}/d{domain}", harness='h_cmp.cpp', defines=d, entry='h_entry', cfg=dict(slack='min', budget_s=1200), list=lid)
+    return dict(prop=prop, name=f"cmp/{lid}/part{part}/d{domain}" + (f"/kv{kv}" if kv != 2 else ''), harness='h_cmp.cpp', defines=d, entry='h_entry', cfg=dict(slack='min', budget_s=1200), list=lid)
 
 
 def attribute_cmp(aid):
@@ -480,7 +488,7 @@ ATTR['h_cmp.cpp'] = attribute_cmp
 
 
 def c13(tier, seed):
-    lists = ['E1', 'E2', 'E3', 'E4', 'G1', 'G2', 'P2', 'V1', 'FL1', 'FL2', 'FL3'] + ([] if tier == 'quick' else ['E5', 'F2', 'M1', 'N1'])
+    lists = ['E1', 'E2', 'E3', 'E4', 'G1', 'G2', 'P2', 'V1', 'FL1', 'FL2', 'FL3', 'FL4', 'G3'] + ([] if tier == 'quick' else ['E5', 'F2', 'M1', 'N1'])
     obs = []
     for lid in lists:
         obs.append(cmp_ob('C13', lid, 1, smax=(1 if lid in TWO_SPAN else None)))
@@ -496,6 +504,10 @@ def c14(tier, seed):
         obs.append(cmp_ob('C14', lid, 4, domain=3, smax=1))
         if tier == 'thorough':
             obs.append(cmp_ob('C14', lid, 3, domain=0, smax=1))
+    # full-width values: byte order differs from numeric order for multi-byte and signed types
+    obs.append(cmp_ob('C14', 'S16', 4, domain=0, smax=1))
+    if tier == 'thorough':
+        obs.append(cmp_ob('C14', 'E3', 4, domain=0, smax=1, kv=1))
     return obs
 
 
